@@ -14,9 +14,14 @@
 //	                      h<k>   the same on path /h<k> (its own endpoint)
 //	                      o<k>   nested cc.DoObserve (20 s deadline)
 //	                      p      nested cc.Ping (10 s deadline)
+//	                      w<k>   one-way confirmable cc.WriteMessage (POST /w, token of exchange k, 30 s): on the datagram transport it
+//	                             returns when the peer's ACK (`ack:<k>`) has been read — by the socket reader, no loop needed
 //	                      a      the handler answers the request (2.05; the reply is cached under the request's message ID)
 //	arrivem:<m>:<prog>:<con|non>:+<d>   the same with a confirmable / non-confirmable request whose message ID is the ID of the
 //	                    last message the connection itself sent plus d (the peer's ID space happens to meet ours)
+//	dup:<m>             the peer sends the very datagram of request m once more (same message ID, same token: a retransmission)
+//	<op>&<op>&…         these ops are applied without running to quiescence in between; `yield` as a part lets the other goroutines
+//	                    run for a moment (no virtual time passes)
 //	resp2:<k>           the peer answers nested exchange k twice, back to back (stream: both frames in one write): the first is the
 //	                    response, the second (payload "dup") belongs to nobody and reaches the handler, logged as request 7000+k
 //	burst:<m1>-<m2>-…   several requests with returning handlers, back to back (no idle point in between)
@@ -54,6 +59,7 @@ import (
 	"fmt"
 	"net"
 	"os"
+	"runtime"
 	"strconv"
 	"strings"
 	"sync"
@@ -85,6 +91,7 @@ type conn interface {
 	AcquireMessage(ctx context.Context) *pool.Message
 	ReleaseMessage(m *pool.Message)
 	Do(req *pool.Message) (*pool.Message, error)
+	WriteMessage(req *pool.Message) error
 	Ping(ctx context.Context) error
 	Close() error
 }
@@ -104,7 +111,9 @@ type world struct {
 	padNext     int
 	lastOwn     int32 // message ID of the last message the connection sent under an ID of its own
 	ackedResp   map[int32]bool
-	resp2       map[int]bool // exchanges answered twice (resp2)
+	resp2       map[int]bool   // exchanges answered twice (resp2)
+	datagrams   map[int][]byte // request m as it was sent (for dup)
+	later       bool           // inside a compound op, after its first part
 	autoAcks    int
 	notes       map[int]int // observation -> notifications sent so far
 	fed         int
@@ -149,6 +158,21 @@ func (w *world) runProg(prog string) {
 	for _, st := range strings.Split(prog, "+") {
 		switch {
 		case st == "r" || st == "" || st == "a":
+		case st[0] == 'w':
+			k, _ := strconv.Atoi(st[1:])
+			ctx, cancel := context.WithTimeout(context.Background(), 30*time.Second)
+			start := time.Now()
+			req := w.cc.AcquireMessage(ctx)
+			req.SetCode(codes.POST)
+			req.SetToken(nestTok(k))
+			_ = req.SetPath("/w")
+			if w.udp {
+				req.SetType(message.Confirmable)
+			}
+			err := w.cc.WriteMessage(req)
+			w.cc.ReleaseMessage(req)
+			cancel()
+			w.log(fmt.Sprintf("n%d:%s:%d", k, errName(err), time.Since(start).Milliseconds()))
 		case st[0] == 's':
 			ms, _ := strconv.Atoi(st[1:])
 			time.Sleep(time.Duration(ms) * time.Millisecond)
@@ -352,7 +376,7 @@ func (w *world) apply(f []string, obsExch map[int]bool) {
 	atoi := func(s string) int { v, _ := strconv.Atoi(s); return v }
 	switch {
 	case f[0] == "arrive" && len(f) == 3:
-		time.Sleep(time.Millisecond) // distinct virtual start times, hence distinct deadlines
+		w.tick() // distinct virtual start times, hence distinct deadlines
 		m := atoi(f[1])
 		w.mu.Lock()
 		w.progs[lp.Hex(reqTok(m))] = f[2]
@@ -364,9 +388,16 @@ func (w *world) apply(f []string, obsExch map[int]bool) {
 		}
 		mid := w.nextMid
 		w.nextMid++
-		w.push(w.build(message.NonConfirmable, codes.GET, reqTok(m), mid, func(x *pool.Message) { _ = x.SetPath("/req") }))
+		d := w.build(message.NonConfirmable, codes.GET, reqTok(m), mid, func(x *pool.Message) { _ = x.SetPath("/req") })
+		w.datagrams[m] = d
+		w.push(d)
+	case f[0] == "dup" && len(f) == 2:
+		w.tick()
+		if d, ok := w.datagrams[atoi(f[1])]; ok {
+			w.push(append([]byte(nil), d...))
+		}
 	case f[0] == "arrivem" && len(f) == 5:
-		time.Sleep(time.Millisecond)
+		w.tick()
 		m := atoi(f[1])
 		w.mu.Lock()
 		w.progs[lp.Hex(reqTok(m))] = f[2]
@@ -376,7 +407,9 @@ func (w *world) apply(f []string, obsExch map[int]bool) {
 			typ = message.Confirmable
 		}
 		mid := w.lastOwn + int32(atoi(strings.TrimPrefix(f[4], "+")))
-		w.push(w.build(typ, codes.GET, reqTok(m), mid, func(x *pool.Message) { _ = x.SetPath("/req") }))
+		d := w.build(typ, codes.GET, reqTok(m), mid, func(x *pool.Message) { _ = x.SetPath("/req") })
+		w.datagrams[m] = d
+		w.push(d)
 	case f[0] == "resp2" && len(f) == 2:
 		k := atoi(f[1])
 		lastReq, ok := w.last[lp.Hex(nestTok(k))]
@@ -399,7 +432,7 @@ func (w *world) apply(f []string, obsExch map[int]bool) {
 		}
 	case f[0] == "burst" && len(f) == 2:
 		// several requests with returning handlers put on the wire back to back (no idle point in between)
-		time.Sleep(time.Millisecond)
+		w.tick()
 		for _, id := range strings.Split(f[1], "-") {
 			m := atoi(id)
 			w.mu.Lock()
@@ -456,15 +489,15 @@ func (w *world) apply(f []string, obsExch map[int]bool) {
 			w.push(w.build(0, codes.Pong, tok, 0, nil))
 		}
 	case f[0] == "call" && len(f) == 2:
-		time.Sleep(time.Millisecond)
+		w.tick()
 		go w.runProg(f[1])
 	case f[0] == "watch" && len(f) == 3:
-		time.Sleep(time.Millisecond)
+		w.tick()
 		k := atoi(f[1])
 		obsExch[k] = true
 		go w.watch(k, f[2])
 	case f[0] == "note" && len(f) == 2:
-		time.Sleep(time.Millisecond)
+		w.tick()
 		k := atoi(f[1])
 		w.mu.Lock()
 		w.notes[k]++
@@ -475,11 +508,17 @@ func (w *world) apply(f []string, obsExch map[int]bool) {
 		w.push(w.build(message.NonConfirmable, codes.Content, nestTok(k), mid, func(x *pool.Message) { x.SetObserve(uint32(10 + j)) }))
 	case f[0] == "pad" && len(f) == 2:
 		w.padNext = atoi(f[1])
+	case f[0] == "yield":
+		// the feeder hands over what was pushed and the loops get to run: a goroutine that ends up waiting for a lock cannot be
+		// waited for with synctest.Wait
+		for i := 0; i < 20000; i++ {
+			runtime.Gosched()
+		}
 	case f[0] == "empty" && len(f) == 3:
 		if !w.udp {
 			return
 		}
-		time.Sleep(time.Millisecond)
+		w.tick()
 		typ := message.Reset
 		if f[2] == "ack" {
 			typ = message.Acknowledgement
@@ -492,6 +531,15 @@ func (w *world) apply(f []string, obsExch map[int]bool) {
 	case f[0] == "settle":
 	default:
 		panic("bad-op " + strings.Join(f, ":"))
+	}
+}
+
+// tick lets one virtual millisecond pass before an arrival (distinct deadlines) — except inside a compound op after its first
+// part: a goroutine of the connection may then be waiting for a lock, which is not "idle" for synctest, and virtual time would
+// never pass.
+func (w *world) tick() {
+	if !w.later {
+		time.Sleep(time.Millisecond)
 	}
 }
 
@@ -515,7 +563,11 @@ func (w *world) run(ops []string, inject func([]byte) error) string {
 					w.log(fmt.Sprintf("panic:%v", r))
 				}
 			}()
-			w.apply(strings.Split(op, ":"), obsExch)
+			for i, sub := range strings.Split(op, "&") {
+				w.later = i > 0
+				w.apply(strings.Split(sub, ":"), obsExch)
+			}
+			w.later = false
 		}()
 		synctest.Wait()
 		w.absorb()
@@ -548,7 +600,7 @@ func (w *world) run(ops []string, inject func([]byte) error) string {
 }
 
 func newWorld(udp bool) *world {
-	return &world{udp: udp, progs: map[string]string{}, last: map[string]sentMsg{}, feed: make(chan []byte, 4096), nextMid: 40000, notes: map[int]int{}, lastOwn: 100, ackedResp: map[int32]bool{}, resp2: map[int]bool{}}
+	return &world{udp: udp, progs: map[string]string{}, last: map[string]sentMsg{}, feed: make(chan []byte, 4096), nextMid: 40000, notes: map[int]int{}, lastOwn: 100, ackedResp: map[int32]bool{}, resp2: map[int]bool{}, datagrams: map[int][]byte{}}
 }
 
 func runUDP(t *testing.T, queue int, limit, eplimit int64, ops []string) (out string) {
@@ -781,13 +833,17 @@ func TestC11(t *testing.T) {
 		// for a sync.Mutex is not durably blocked: the bubble never becomes idle, virtual time cannot pass and the history never
 		// ends.  The line is answered with `hang`, everything written so far is flushed and the process ends; the check script
 		// goes on with the remaining lines in a new process.
-		limit := 6 * time.Second
+		limit := 3 * time.Second
 		if v, err := strconv.Atoi(os.Getenv("VERIF_HANG_S")); err == nil && v > 0 {
 			limit = time.Duration(v) * time.Second
 		}
 		watchdog := time.AfterFunc(limit, func() {
 			fmt.Fprintln(w, "hang")
 			_ = w.Flush()
+			if os.Getenv("VERIF_HANG_STACKS") != "" {
+				buf := make([]byte, 1<<20)
+				os.Stderr.Write(buf[:runtime.Stack(buf, true)])
+			}
 			os.Exit(0)
 		})
 		defer func() {
